@@ -16,6 +16,8 @@ for i in sorted(os.listdir(S)):
     own = i.split("-")[0]
     k = int(i.split("-")[1])
     wave = 1 if k <= 2 else 2 if k <= 4 else (3 if own == "C19" else 4)
+    if os.path.exists(os.path.join(d, "wave")):
+        wave = open(os.path.join(d, "wave")).read().strip()
     touched = sorted(set(re.findall(r"^\+\+\+ b/(\S+)", open(os.path.join(d, "patch.diff")).read(), re.M)))
     def caught(r):
         return None if r is None else sorted(r.get("caught_by", []))
